@@ -551,7 +551,26 @@ fn gen_result(rng: &mut Rng, status_override: Option<u16>, expect: ExpectJob) ->
             });
         }
     }
-    let charset = charset_of(ct);
+    // a second Content-Type header (another value of the same header): the last one governs
+    if ct.is_some() && rng.chance(1, 6) {
+        let pos = rng.usize_below(headers.len() + 1);
+        headers.insert(
+            pos,
+            HttpHeader {
+                name: (*rng.pick(&["content-type", "Content-Type"])).to_string(),
+                value: (*rng.pick(&CONTENT_TYPES)).to_string(),
+            },
+        );
+        if class == "response" {
+            class = "repeated-content-type";
+        }
+    }
+    let ct = headers
+        .iter()
+        .filter(|h| h.name.eq_ignore_ascii_case("content-type"))
+        .last()
+        .map(|h| h.value.clone());
+    let charset = charset_of(ct.as_deref());
     let body = match expect {
         // bodies that matter for the expectation, half of the time
         ExpectJob::Json if rng.chance(1, 2) => {
